@@ -1430,6 +1430,21 @@ func c10e(c *Ctx) {
 		}
 		first := head.Instrs[0]
 		_, skip := existsPath(pathQuery{from: point{head, len(head.Instrs) - 1}, avoid: isAppend, edgeOK: notErrorEdge, target: func(in ssa.Instruction) bool { return in == first }})
+		// ... once: no way from one append of the parsed statement(s) to another in the same turn
+		{
+			twice := false
+			for _, b := range fn.Blocks {
+				for _, in := range b.Instrs {
+					if !isAppend(in) {
+						continue
+					}
+					if _, again := existsPath(pathQuery{from: after(in), target: isAppend, stopAt: func(x ssa.Instruction) bool { return x == first }}); again {
+						twice = true
+					}
+				}
+			}
+			c.Check(!twice, fn.Name()+"/statement-recorded-once", c.W.Pos(firstPos(head)), "a parsed statement is appended once", "a turn of the statement loop can append what it parsed twice: the statement would be emitted (and run) twice")
+		}
 		c.Check(!skip, fn.Name()+"/every-iteration-records-a-statement", c.W.Pos(firstPos(head)), "every iteration appends the parsed statement(s) to the block", "an iteration of the statement loop can complete without appending a parsed statement to the block (a statement would be silently dropped)")
 		// the appended list is what the block holds / the function returns
 		stored := false
